@@ -82,6 +82,32 @@ impl RitiContext {
     }
 }
 
+/// Verification hooks (feature `verif`): they only observe or re-initialise the method.
+#[cfg(feature = "verif")]
+impl RitiContext {
+    /// Canonical JSON rendering of the whole mutable state of the current method.
+    ///
+    /// `level`: 0 = composition only, 1 = plus learned selections, memo keys, user
+    /// auto-correct and scratch suggestions, 2 = plus the full memo contents.
+    pub fn verif_snapshot(&self, level: u8) -> String {
+        self.method.borrow().verif_snapshot(level)
+    }
+
+    /// Replace the method by a newly created one (exactly what `new_with_config` does),
+    /// keeping the immutable shared `Data`.
+    pub fn verif_reset_method(&self) {
+        self.method.replace(<dyn Method>::new(&self.config));
+    }
+
+    /// Overwrite the composition state of the fixed method with a state previously
+    /// observed through `verif_snapshot`. Returns `false` for the phonetic method.
+    pub fn verif_set_composition(&self, buffer: &str, typed: &str, pending_kar: u8) -> bool {
+        self.method
+            .borrow_mut()
+            .verif_set_composition(buffer, typed, pending_kar)
+    }
+}
+
 pub(crate) trait Method {
     fn get_suggestion(
         &mut self,
@@ -96,6 +122,14 @@ pub(crate) trait Method {
     fn ongoing_input_session(&self) -> bool;
     fn finish_input_session(&mut self);
     fn backspace_event(&mut self, ctrl: bool, data: &Data, config: &Config) -> Suggestion;
+    /// Verification hook: canonical JSON rendering of the method's mutable state.
+    #[cfg(feature = "verif")]
+    fn verif_snapshot(&self, level: u8) -> String;
+    /// Verification hook: overwrite the composition state (fixed method only).
+    #[cfg(feature = "verif")]
+    fn verif_set_composition(&mut self, _buffer: &str, _typed: &str, _pending_kar: u8) -> bool {
+        false
+    }
 }
 
 impl dyn Method {
